@@ -28,6 +28,26 @@ class _Continue(Exception):
     pass
 
 
+def same_header_modulo_targets(spec_header: str, s) -> bool:
+    """A `for` header matches its contract when the iterable is textually the same and the target has the same shape;
+    the NAMES of the loop variables are incidental (contracts speak about the iteration index, not about them)."""
+    if not isinstance(s, ast.For) or " in " not in spec_header:
+        return False
+    tgt, it = spec_header.split(" in ", 1)
+    if it != ast.unparse(s.iter):
+        return False
+    try:
+        a = ast.parse(tgt, mode="eval").body
+    except SyntaxError:
+        return False
+
+    def shape(n):
+        if isinstance(n, (ast.Tuple, ast.List)):
+            return tuple(shape(e) for e in n.elts)
+        return "name" if isinstance(n, ast.Name) else ast.dump(n)
+    return shape(a) == shape(s.target)
+
+
 def abstract_escapes(body):
     """return / break / continue statements of a block that leave the block (not those of nested defs / loops)."""
     out, seen = [], set()
@@ -298,12 +318,31 @@ class Ex:
         return self.st.branch(c) if not isinstance(c, bool) else c
 
     def ev_JoinedStr(self, e, fr):
-        parts = []
+        parts, vals = [], []
         for v in e.values:
             if isinstance(v, ast.Constant):
                 parts.append(v.value)
+                vals.append(v.value)
             else:
-                parts.append(self.format_value(self.ev(v.value, fr), v.conversion, fr))
+                val = self.ev(v.value, fr)
+                vals.append(val if (v.conversion == -1 and v.format_spec is None) else None)
+                parts.append(self.format_value(val, v.conversion, fr))
+        # f"{key}.name.other": same structured key as key + ".name.other" (components without separator)
+        if len(vals) >= 2 and isinstance(vals[0], VStr) and getattr(vals[0], "parts", None) is not None:
+            sep = getattr(vals[0], "sep", ".")
+            comps, ok, i = list(vals[0].parts), True, 1
+            while i < len(vals) and ok:
+                x = vals[i]
+                if isinstance(x, str) and x.startswith(sep):
+                    body = x[len(sep):]
+                    pieces = body.split(sep)
+                    if all(pieces):
+                        comps += [VStr(q) for q in pieces]
+                        i += 1
+                        continue
+                ok = False
+            if ok:
+                return self.lib.make_key(comps, sep)
         return VStr(concat_str(parts))
 
     def format_value(self, val, conversion, fr):
@@ -1665,7 +1704,7 @@ class Ex:
 
     def loop_with_invariant(self, s, fr, spec: LoopSpec, it, ordinal):
         header = (ast.unparse(s.target) + " in " + ast.unparse(s.iter)) if isinstance(s, ast.For) else ast.unparse(s.test)
-        if spec.header is not None and spec.header != header:
+        if spec.header is not None and spec.header != header and not same_header_modulo_targets(spec.header, s):
             raise Unsupported(f"loop header changed: expected {spec.header!r}, found {header!r} (invariant not applicable)")
         st = self.st
         name = spec.name or f"{fr.fi.name}.loop{ordinal}"
